@@ -1259,6 +1259,17 @@ fn sample_docs(be: &crate::parsework::Backend) -> Vec<String> {
     })
 }
 
+/// one very long single line for the JSON grammar, valid or cut off (a kilobyte-sized error text)
+fn long_json_line(rng: &mut Rng) -> String {
+    let n = rng.range(700, 1500);
+    let body = format!("[{}1", "1,".repeat(n));
+    if rng.chance(1, 2) {
+        format!("{body}]")
+    } else {
+        format!("{body} x")
+    }
+}
+
 fn doc_input(rng: &mut Rng) -> String {
     let words = ["test", "test2", "a", "b1", "x9y", "1x", "Zq", ""];
     // occasionally a long list: positions beyond one byte, hundreds of rule entries
@@ -1309,6 +1320,9 @@ pub fn gen_workload(rng: &mut Rng, stats: &mut GenStats) -> Option<(Workload, Ve
             .map(|r| r.name.clone())
             .collect();
         fixed_inputs = sample_docs(&be);
+        if file == "json" && rng.chance(1, 6) {
+            fixed_inputs = vec![long_json_line(rng)];
+        }
         grammar_kind = format!("sample grammar {file}.pest");
         (text, None, names, vec![top.to_string()])
     } else {
